@@ -3,6 +3,7 @@ NEXT Next
 CONSTANTS
   MaxItems = 3
   PairItems = 2
+  OptItems = 2
   Emit = TRUE
 INVARIANT ParseRefinesRef
 INVARIANT DumpRefinesRef
